@@ -168,7 +168,11 @@ def gen_plan(seed, cfg):
         n = len(sw['spec']['sheets'])
         sw['entries'] = [[n - 1 - e[0], e[1], e[2]] if e[0] < n else e for e in sw['entries']]
         items[1] = sw
-    workbooks = [{'path': '/simfs/wb%d.xlsx' % i, 'versions': [it['spec']], 'entries': it['entries']} for i, it in enumerate(items)]
+    # on some runs (own stream) the workbooks all have the SAME file name, in different directories
+    same_name = core.rng(seed, 'parsersim', 'paths').random() < 0.3
+    swarm['same_basename'] = same_name
+    workbooks = [{'path': ('/simfs/d%d/budget.xlsx' % i) if same_name else ('/simfs/wb%d.xlsx' % i), 'versions': [it['spec']], 'entries': it['entries']}
+                 for i, it in enumerate(items)]
     if swarm['rewrites']:
         for w in workbooks:
             if r.random() < 0.6:
